@@ -30,8 +30,21 @@ type FontCase struct {
 	WMode  string     `json:"wmode"`  // rand | mono | monozero | tail | zero | wide
 	Matrix string     `json:"matrix"` // top: FontMatrix = 1/upm; fd: (CID) FontMatrix = identity, per-FD matrices = 1/upm
 	Angle  [2]int     `json:"angle"`  // italic angle, 16.16
+	FMu    [6]int     `json:"fmu"`    // general affine font matrix in units of 1e-6 (all zero: 1/upm scaling)
 	Shift  [2]int     `json:"shift"`  // all outlines are translated by this vector (no composites then)
 }
+
+// classes of font matrices, in units of 1e-6
+var (
+	none         = [6]int{}
+	fmTranslate  = [6]int{1000, 0, 0, 1000, 50000, -20000}
+	fmShear      = [6]int{1000, 0, 200, 1000, 0, 0}
+	fmAniso      = [6]int{2000, 0, 0, 1000, 0, 0}
+	fmFlipY      = [6]int{1000, 0, 0, -1000, 0, 7000}
+	fmFlipXShift = [6]int{-1000, 0, 0, 1000, 30000, 0}
+	fmRotate     = [6]int{1000, 150, -150, 1000, 12000, 3000}
+	fmClasses    = [][6]int{fmTranslate, fmShear, fmAniso, fmFlipY, fmFlipXShift, fmRotate}
+)
 
 func fontCases(n int) []*FontCase {
 	rng := vio.Rand(1201)
@@ -65,22 +78,43 @@ func fontCases(n int) []*FontCase {
 		}
 		fc := &FontCase{Opts: o, RSeed: rng.Int63(), Upm: upms[rng.Intn(len(upms))], WMode: wmodes[rng.Intn(len(wmodes))],
 			Matrix: "top", Angle: angles[rng.Intn(len(angles))]}
+		if o.Kind == "cid" && i%2 == 1 {
+			fc.Matrix = "fd"
+		}
+		if i >= len(corpus) && rng.Intn(5) == 0 {
+			fc.FMu = fmClasses[rng.Intn(len(fmClasses))]
+			fc.Upm = 1000
+		}
 		fixed := []struct {
 			kind, wmode string
 			n           int
-		}{{"cff", "drift", 10}, {"cid", "driftperm", 9}, {"cff", "driftperm", 6}, {"cid", "driftdown", 12},
-			{"cff", "jitter", 8}, {"ttf", "drift", 9}, {"cff", "nearmono", 7}, {"cff", "monozero", 9}}
+			fmu         [6]int
+			fd          bool
+		}{{"cff", "drift", 10, none, false}, {"cid", "driftperm", 9, none, false}, {"cff", "driftperm", 6, none, false},
+			{"cid", "driftdown", 12, none, true}, {"cff", "jitter", 8, none, false}, {"ttf", "drift", 9, none, false},
+			{"cff", "nearmono", 7, none, false}, {"cff", "monozero", 9, none, false},
+			// one font of every outline kind for every class of font matrix
+			{"ttf", "rand", 8, fmTranslate, false}, {"cff", "rand", 8, fmTranslate, false}, {"cid", "rand", 8, fmTranslate, true},
+			{"ttf", "rand", 7, fmShear, false}, {"cff", "mono", 7, fmShear, false}, {"cid", "rand", 7, fmShear, false},
+			{"ttf", "rand", 6, fmAniso, false}, {"cff", "rand", 6, fmAniso, false}, {"cid", "rand", 6, fmAniso, true},
+			{"ttf", "rand", 6, fmFlipY, false}, {"cff", "rand", 6, fmFlipXShift, false}, {"cid", "rand", 6, fmFlipY, false},
+			{"ttf", "rand", 5, fmRotate, false}, {"cff", "rand", 5, fmRotate, false}, {"cid", "rand", 5, fmRotate, true}}
 		if i < len(corpus) {
 			fc.Upm, fc.WMode = 1000, "rand"
 		} else if k := i - len(corpus); k < len(fixed) {
 			// width patterns every run must contain (fixed-pitch test on fractional widths)
 			fc.Opts.Kind, fc.Opts.N, fc.Opts.Composites, fc.WMode = fixed[k].kind, fixed[k].n, 0, fixed[k].wmode
+			fc.FMu = fixed[k].fmu
+			if fc.FMu != none {
+				fc.Upm = 1000
+			}
+			fc.Matrix = "top"
+			if fixed[k].fd && fixed[k].kind == "cid" {
+				fc.Matrix = "fd"
+			}
 		} else if sh := shifts[rng.Intn(len(shifts))]; sh != [2]int{0, 0} {
 			fc.Shift = sh
 			fc.Opts.Composites = 0
-		}
-		if o.Kind == "cid" && i%2 == 1 {
-			fc.Matrix = "fd"
 		}
 		res = append(res, fc)
 	}
@@ -96,10 +130,17 @@ func (fc *FontCase) build() (f *sfnt.Font, wq []int, codes []int) {
 	f.UnitsPerEm = uint16(fc.Upm)
 	f.FontMatrix = matrix.Matrix{q, 0, 0, q, 0, 0}
 	f.ItalicAngle = float64(mx.S16(fc.Angle[0])) + float64(fc.Angle[1])/65536
+	M := f.FontMatrix
+	if fc.FMu != none {
+		for k := range M {
+			M[k] = float64(fc.FMu[k]) / 1e6
+		}
+		f.FontMatrix = M
+	}
 	if o, ok := f.Outlines.(*cff.Outlines); ok && o.IsCIDKeyed() && fc.Matrix == "fd" {
 		f.FontMatrix = matrix.Identity
 		for i := range o.FontMatrices {
-			o.FontMatrices[i] = matrix.Matrix{q, 0, 0, q, 0, 0}
+			o.FontMatrices[i] = M
 		}
 	}
 
@@ -231,8 +272,13 @@ func box4(r funit.Rect16) [4]int { return [4]int{int(r.LLx), int(r.LLy), int(r.U
 
 // outlineBoxes computes, from the outline data alone, the number of points of every glyph and
 // the boxes of its on-curve points and of all its points.  npts = -1: composite, not judged.
-func outlineBoxes(f *sfnt.Font) (npts []int, on, onin, all [][4]int) {
+func outlineBoxes(f *sfnt.Font) (npts []int, on, onin, all [][4]int, onpts [][][2]int, integral bool) {
 	n := f.NumGlyphs()
+	integral = true
+	onpts = make([][][2]int, n)
+	for i := range onpts {
+		onpts[i] = [][2]int{}
+	}
 	npts = make([]int, n)
 	on = make([][4]int, n)
 	onin = make([][4]int, n)
@@ -268,6 +314,14 @@ func outlineBoxes(f *sfnt.Font) (npts []int, on, onin, all [][4]int) {
 				continue
 			}
 		}
+		for _, p := range pts {
+			if p.X != math.Floor(p.X) || p.Y != math.Floor(p.Y) {
+				integral = false
+			}
+			if p.On {
+				onpts[i] = append(onpts[i], [2]int{int(p.X), int(p.Y)})
+			}
+		}
 		b := mx.BoxesOf(pts)
 		npts[i] = b.N
 		if b.N > 0 {
@@ -275,6 +329,28 @@ func outlineBoxes(f *sfnt.Font) (npts []int, on, onin, all [][4]int) {
 		}
 	}
 	return
+}
+
+// rationalMatrix writes a matrix as integers over a common denominator.
+func rationalMatrix(M matrix.Matrix) (N [6]int, D int, ok bool) {
+	ok = true
+	for k, x := range M {
+		r := math.Round(x * 1e6)
+		if math.Abs(x*1e6-r) > 1e-7 || math.Abs(r) > 1e6 {
+			ok = false
+		}
+		N[k] = int(r)
+	}
+	if ok {
+		return N, 1000000, true
+	}
+	if M[0] > 0 && M[1] == 0 && M[2] == 0 && M[3] == M[0] && M[4] == 0 && M[5] == 0 {
+		u := math.Round(1 / M[0])
+		if u >= 1 && u <= 65535 && 1/u == M[0] {
+			return [6]int{1, 0, 0, 1, 0, 0}, int(u), true
+		}
+	}
+	return [6]int{}, 1, false
 }
 
 func milli(r [4]float64) [4]int {
@@ -294,7 +370,37 @@ func describe(c *Case, stage string, f *sfnt.Font, wq, codes []int) (e ev, file 
 		whi[i] = int(math.Ceil(float64(x) / 20))
 	}
 	e["wlo"], e["whi"] = wlo, whi
-	e["npts"], e["on"], e["onin"], e["all"] = outlineBoxes(f)
+	var onpts [][][2]int
+	var integral bool
+	e["npts"], e["on"], e["onin"], e["all"], onpts, integral = outlineBoxes(f)
+
+	// the font matrix in effect for every glyph (per-FD matrix first, then the font matrix), as
+	// integers over a common denominator: decimal matrices over 10^6, plain 1/upm scaling over upm
+	fmN, fmD, fmKnown := [6]int{}, 1, true
+	for i := 0; i < n && fmKnown; i++ {
+		M := f.FontMatrix
+		if o, ok := f.Outlines.(*cff.Outlines); ok && o.IsCIDKeyed() {
+			M = o.FontMatrices[o.FDSelect(glyph.ID(i))].Mul(f.FontMatrix)
+		}
+		N, D, ok := rationalMatrix(M)
+		if !ok || (i > 0 && (N != fmN || D != fmD)) {
+			fmKnown = false
+		}
+		fmN, fmD = N, D
+	}
+	sheared := fmN[1] != 0 || fmN[2] != 0
+	if !integral && fmD == 1000000 && fmN != [6]int{fmN[0], 0, 0, fmN[0], 0, 0} {
+		fmKnown = false // general matrices are judged on integer coordinates only
+	}
+	if !sheared || !fmKnown {
+		for i := range onpts {
+			onpts[i] = [][2]int{}
+		}
+	}
+	if !fmKnown {
+		fmN, fmD = [6]int{}, 1
+	}
+	e["fm_known"], e["fmN"], e["fmD"], e["onpts"] = fmKnown, fmN, fmD, onpts
 
 	// the font's own queries
 	qbox := make([][4]int, n)
